@@ -38,6 +38,10 @@ def judge(ctx, kind, graph_seed, knobs, a_mode, b_mode, p_outside):
 
     A = Path(AC.tmpdir()) / "audio root ✓" / "A"
     B = Path(AC.tmpdir()) / "elsewhere" / "B dir"
+    if graph_seed % 5 == 0:
+        A = Path("relative audio") / "A"       # relative directories are legitimate (lexical arithmetic only)
+    if graph_seed % 3 == 1:
+        B = Path("other rel") / "B dir"
     obj, gen = graphs.make(kind, graph_seed, audio_root=A, p_outside=p_outside, **knobs)
     recs = _recordings(obj)
     any_outside = any(not str(r.path).startswith(str(A) + "/") for r in recs.values())
